@@ -922,8 +922,23 @@ func (x *Exec) invCtx(st *State, fr *Frame, phis []*ssa.Phi, vals []Value, snap 
 		if ph.Comment != "" {
 			names[ph.Comment] = vals[k]
 			counts[ph.Comment]++
+			// ordinal-qualified name (rangeindex0, rangeindex1, ...) to tell nested range loops apart
+			if ord, ok := fr.info.headers[ph.Block().Index]; ok {
+				names[fmt.Sprintf("%s%d", ph.Comment, ord)] = vals[k]
+			}
 		}
 		names[ph.Name()] = vals[k]
+	}
+	// phis of enclosing loops keep their ordinal-qualified names
+	for v, val := range fr.env {
+		if ph, ok := v.(*ssa.Phi); ok && ph.Comment != "" {
+			if ord, ok := fr.info.headers[ph.Block().Index]; ok {
+				key := fmt.Sprintf("%s%d", ph.Comment, ord)
+				if _, set := names[key]; !set {
+					names[key] = val
+				}
+			}
+		}
 	}
 	for _, v := range fr.env {
 		if it, ok := v.(Iter); ok {
